@@ -655,6 +655,31 @@ func tryWide(w *W, r *rand.Rand, prop int) {
 		vals[v] = !isOr // non-deciding
 	}
 	tree := Op(name, TBool, ch...)
+	wideOp := false
+	if r.Intn(3) == 0 {
+		wideOp = true
+		// ... or a wide arithmetic operator (every operand available) as the last operand of an and/or whose earlier
+		// operand is unavailable: (or u (= (+ x1 .. xn) sum))
+		n = []int{3, 64, 100, 126, 127}[r.Intn(5)]
+		sum := int64(0)
+		ch = make([]*Node, n)
+		vals = map[string]interface{}{"u0": r.Intn(2) == 0}
+		order = []string{"u0"}
+		for i := range ch {
+			v := fmt.Sprintf("x%d", i)
+			order = append(order, v)
+			ch[i] = Var(v, TInt)
+			x := int64(r.Intn(5))
+			vals[v] = x
+			sum += x
+		}
+		want := sum
+		if r.Intn(2) == 0 {
+			want++
+		}
+		tree = Op(name, TBool, Var("u0", TBool), Op("=", TBool, Op("+", TInt, ch...), Lit(want)))
+		w.Inc("wide_operator_after_unavailable_operand")
+	}
 	// optionally on top of a deep stack of pending operands
 	pending := []int{0, 0, 10, 58, 62}[r.Intn(5)]
 	if pending > 0 && n+pending < 200 {
@@ -679,21 +704,25 @@ func tryWide(w *W, r *rand.Rand, prop int) {
 			b.Vals[k2] = v
 			b.Avail[k2] = true
 		}
-		// 1-3 unavailable operands, biased to late positions
-		nun := 1 + r.Intn(3)
-		for i := 0; i < nun; i++ {
-			p := n - 1 - r.Intn(minInt(n, 70))
-			if r.Intn(4) == 0 {
-				p = r.Intn(n)
+		if wideOp {
+			b.Avail["u0"] = false // the and/or's first operand is unknown, the wide operator's operands are all there
+		} else {
+			// 1-3 unavailable operands, biased to late positions
+			nun := 1 + r.Intn(3)
+			for i := 0; i < nun; i++ {
+				p := n - 1 - r.Intn(minInt(n, 70))
+				if r.Intn(4) == 0 {
+					p = r.Intn(n)
+				}
+				b.Avail[order[p]] = false
 			}
-			b.Avail[order[p]] = false
-		}
-		// a deciding operand: none, early, late
-		switch r.Intn(3) {
-		case 1:
-			b.Vals[order[r.Intn(minInt(n, 10))]] = isOr
-		case 2:
-			b.Vals[order[n-1-r.Intn(minInt(n, 10))]] = isOr
+			// a deciding operand: none, early, late
+			switch r.Intn(3) {
+			case 1:
+				b.Vals[order[r.Intn(minInt(n, 10))]] = isOr
+			case 2:
+				b.Vals[order[n-1-r.Intn(minInt(n, 10))]] = isOr
+			}
 		}
 		un := unavailableOf(b, order)
 		kv, kerr := refEnv(b).Kleene(tree)
